@@ -55,7 +55,7 @@ func backendOps(c *Case, d *mapDriver, keys [][]byte, nops int) {
 	pickKey := func() []byte { return keys[c.Pick("key", len(keys))] }
 
 	for i := 0; i < nops; i++ {
-		switch c.Weighted("op", 6, 6, 3, 2, 1, 1, 2, 3, 2, 1) {
+		switch c.Weighted("op", 6, 6, 3, 2, 2, 1, 2, 3, 2, 1, 1) {
 		case 0: // Write
 			k := pickKey()
 			ttl := callTTLs[c.Pick("ttl", len(callTTLs))]
@@ -134,6 +134,8 @@ func backendOps(c *Case, d *mapDriver, keys [][]byte, nops int) {
 			} else {
 				d.read(k, false, true)
 			}
+		case 10: // Walk aborted by the callback: stops at once, reports the callback's error and the entries processed
+			d.walkAbort(c.Int("abort-after", 0, 3))
 		case 9: // Len only
 			l := be.Len()
 			c.Assert(l == len(d.ref.m)-len(d.lossy) || (len(d.lossy) > 0 && l <= len(d.ref.m)), "len",
